@@ -12,8 +12,9 @@ TrApproxMul == Ev.ev = "approxmul" /\ ~Ev.err /\ ~Ev.panic /\ ApproxProduct(Ev.a
 TrEmbed == Ev.ev = "embed" /\ ~Ev.err /\ ~Ev.panic /\ Ev.samer /\ Ev.sameq /\ Ev.samep
 TrFFT == Ev.ev = "fft" /\ ~Ev.err /\ ~Ev.panic /\ FFTRoundTrip(Ev.vals, Ev.out)
 \* documented refusals (too many values)
+TrQuant == Ev.ev = "quant" /\ ~Ev.err /\ ~Ev.panic /\ QuantOK(Ev.re, Ev.im, Ev.lgscale, Ev.c0, Ev.c1)
 TrRefuse == Ev.ev = "refuse" /\ Ev.err /\ ~Ev.panic
-TraceNext == /\ l <= Len(Trace) /\ l' = l + 1 /\ (TrInt \/ TrIntMul \/ TrApprox \/ TrPublic \/ TrApproxMul \/ TrEmbed \/ TrFFT \/ TrRefuse)
+TraceNext == /\ l <= Len(Trace) /\ l' = l + 1 /\ (TrInt \/ TrIntMul \/ TrApprox \/ TrPublic \/ TrApproxMul \/ TrEmbed \/ TrFFT \/ TrQuant \/ TrRefuse)
 TraceInit == l = 1 /\ TLCSet(1, 1)
 TraceSpec == TraceInit /\ [][TraceNext]_l
 Progress == TLCSet(1, IF TLCGet(1) > l THEN TLCGet(1) ELSE l)
